@@ -56,3 +56,27 @@ Theorem C09_unit_roundtrip : forall k : Z, (-100000000000 <= k <= 100000000000)%
   fmt 2 (ret 2 (canon_s k)) = canon_s k /\ fmt 1 (ret 1 (canon_s k)) = canon_s k /\ fmt 0 (ret 0 (canon_s k)) = canon_s k.
 Proof. exact unit_roundtrip_signed. Qed.
 Print Assumptions C09_unit_roundtrip.
+
+(* ---- clause "times(units), as_units, start_time/end_time(units) return the stored seconds multiplied by that factor" ----
+   C09_unit_roundtrip above only says that re-importing the exported value gives the stored double back (fmt (ret x) = x);
+   it would also hold for a `ret` that used a wrong but invertible factor together with a matching `fmt`.  The direct statement:
+   for a stored lattice instant of k microseconds, the value returned in seconds IS the stored double, and the values
+   returned in ms / us are finite doubles within 0.3 ns of the exact k/1e3 ms, k us (FR = the real value of a double;
+   the left-hand sides are written in nanoseconds).  The harness compares the implementation with the exact instant
+   under the same 0.3 ns bound. *)
+From Coq Require Import Reals.
+Theorem C09_output_is_stored_times_factor : forall k : Z, (1 <= Z.abs k <= 100000000000)%Z ->
+  ret 0 (canon_s k) = canon_s k
+  /\ (fin (ret 1 (canon_s k)) /\ (Rabs (FR (ret 1 (canon_s k)) * 1000000 - IZR (1000 * k)) <= 3 / 10)%R)
+  /\ (fin (ret 2 (canon_s k)) /\ (Rabs (FR (ret 2 (canon_s k)) * 1000 - IZR (1000 * k)) <= 3 / 10)%R).
+Proof. intros k Hk. split; [exact (ret0_canon k Hk) | split; [exact (ret1_near k Hk) | exact (ret2_near k Hk)]]. Qed.
+Print Assumptions C09_output_is_stored_times_factor.
+
+(* the value in microseconds is NOT always the exact integer k: the exactness one might read into the statement is false of
+   the float model (and of the implementation); hence the bound above.  99000.415632 s: stored * 1e6 = 99000415631.99998... *)
+Example C09_output_us_exact_refuted :
+  PrimFloat.eqb (ret 2 (canon_s 99000415632)) (fzs 99000415632) = false.
+Proof. vm_compute. reflexivity. Qed.
+
+Example C09_output_zero : ret 0 (canon_s 0) = canon_s 0 /\ ret 1 (canon_s 0) = canon_s 0 /\ ret 2 (canon_s 0) = canon_s 0.
+Proof. vm_compute. repeat split; reflexivity. Qed.
